@@ -44,15 +44,15 @@ Theorem C02_typed_rt_type : forall v t, pv_typedb v t = true -> rt_type v = t.
 Proof. exact typed_rt_type. Qed.
 Print Assumptions C02_typed_rt_type.
 
-(* literals: PUSH of a well-typed literal produces a value of exactly that type that erases to the literal *)
-Theorem C02_push_literal : forall d t, data_has_type t d = true ->
+(* literals (without sets/maps: [no_coll]): PUSH of a well-typed literal produces a value of exactly that type that erases to the literal *)
+Theorem C02_push_literal : forall d t, data_has_type t d = true -> no_coll t = true ->
   exists v, py_of_data t d = Some v /\ pv_typedb v t = true /\ erase v = value_of_data d.
 Proof. exact py_of_data_typed. Qed.
 Print Assumptions C02_push_literal.
 
 (* per-instruction preservation: every instruction without sub-programs returns values of the static types *)
 Theorem C02_instr_keeps_types : forall e, env_okb e = true -> forall i k fn s s1 vis,
-  py_simple e i = Some (k, fn) -> tc_simple i s = Some s1 -> styped vis s ->
+  py_simple e i = Some (k, fn) -> tc_simple true i s = Some s1 -> styped vis s ->
   exists args rest, vis = args ++ rest /\ length args = k /\
     match ref_simple e i (map erase vis) with
     | Done r => exists outs, fn args = POk outs /\ map erase (outs ++ rest) = r /\ styped (outs ++ rest) s1
